@@ -76,6 +76,12 @@ fn parse_list_declaration(input: &str) -> Result<ListDeclaration, CompilerError>
         } else {
             items.push((inner.to_owned(), value, selected));
         }
+        // List item values are 32-bit signed integers in the runtime.
+        if value > i32::MAX as u32 {
+            return Err(CompilerError::invalid_source(format!(
+                "LIST item value out of range: '{value}'"
+            )));
+        }
         value += 1;
     }
 
